@@ -98,7 +98,7 @@ ItemAspects(T, e, o) ==
 \* align observed items with expected ones (optional items may be absent)
 RECURSIVE ItemsAspects(_, _, _)
 ItemsAspects(T, exp, obs) ==
-  IF exp = <<>> THEN (IF obs = <<>> THEN {} ELSE {"shape.extra"})
+  IF exp = <<>> THEN (IF obs = <<>> THEN {} ELSE {"shape.extra." \o Head(obs).k})
   ELSE IF Head(exp).k = "info" /\ Head(exp).what \in {"other", "list-unspecified"} THEN {}   \* free-form output
   ELSE IF Head(exp).k = "closed" THEN
        \* the order of the closing notices at end of input is not specified: compare as sets
@@ -107,11 +107,12 @@ ItemsAspects(T, exp, obs) ==
           /\ {<<exp[i].role, ToCaps(exp[i].ord)>> : i \in 1..Len(exp)}
                = {<<obs[i].role, CharsOf(obs[i].name)>> : i \in 1..Len(obs)}
        THEN {} ELSE {"notice.closed"}
-  ELSE IF obs = <<>> THEN (IF \A i \in 1..Len(exp) : exp[i].may THEN {} ELSE {"shape.missing"})
+  ELSE IF obs = <<>> THEN (IF \A i \in 1..Len(exp) : exp[i].may THEN {}
+                           ELSE {"shape.missing." \o (CHOOSE e \in {exp[i] : i \in 1..Len(exp)} : ~e.may).k})
   ELSE IF KindOk(Head(exp), Head(obs))
        THEN ItemAspects(T, Head(exp), Head(obs)) \cup ItemsAspects(T, Tail(exp), Tail(obs))
        ELSE IF Head(exp).may THEN ItemsAspects(T, Tail(exp), obs)
-       ELSE {"shape." \o Head(exp).k}
+       ELSE {"shape.want." \o Head(exp).k \o ".got." \o Head(obs).k}
 
 -----------------------------------------------------------------------------
 \* projections of the tool's state
